@@ -506,6 +506,12 @@ def run(ck):
             ("TimeAxis.get_FrequencyAxis", lib_faxis), ("convert", lib_convert), ("AbsSpectrumCalculator.calculate", lib_abs),
             ("get_DensityMatrix", lib_dm), ("SpectralDensity.get_CorrelationFunction", lib_sd)]
 
+    # the random programs draw from the calls that take milliseconds; every call, the slow ones included, is made in the scripted sweep below
+    slow = ("ReducedDensityMatrixPropagator.propagate", "EvolutionSuperOperator.calculate", "AbsSpectrumCalculator.calculate", "get_RelaxationTensor(combined)",
+            "get_RelaxationTensor(time_dependent)", "get_RelaxationTensor(Foerster)", "RedfieldRateMatrix/FoersterRateMatrix", "bath function transforms",
+            "get_RelaxationTensor", "get_RelaxationTensor(as_operators)", "Aggregate.build(with modes)", "initial states", "save/load_parcel")
+    cheap_libs = [i for i, (nm_, _) in enumerate(libs) if nm_ not in slow]
+
     def state():
         return "%s %d %d" % (m.get_current_units("energy"), m._in_eu_count, 1 if m._in_energy_units_context else 0)
 
@@ -520,7 +526,7 @@ def run(ck):
             elif x < 0.6:
                 nodes.append(("raise",))
             elif x < 0.85:
-                nodes.append(("call", rng.randrange(len(libs))))
+                nodes.append(("call", rng.choice(cheap_libs)))
             elif x < 0.93:
                 nodes.append(("raw", rng.choice(eunits)))
             else:
